@@ -7,6 +7,7 @@
 import SqLemmas.LexCont
 import SqLemmas.ParseErase
 import Sq.Proto
+import SqLemmas.LexLine
 namespace Sq
 
 /-- one more unit of fuel than needed changes nothing -/
@@ -163,58 +164,60 @@ theorem reach_next {post : List Char} {st s acc st1 acc1} (h : LexReach post st 
   | tok hs _ => exact Or.inr (fun e he => by rw [hs] at he; cases he)
   | skip hs _ => exact Or.inr (fun e he => by rw [hs] at he; cases he)
 
-/-- **the prefix half**: if the old run reaches the insertion point, the run on the text WITH the blank delivers the same
-    tokens up to there and continues, one offset further, on the same remaining text -/
-theorem reach_with_blank (b : Char) (hb : isBlank b) {post : List Char} {st s acc st1 acc1}
-    (h : LexReach post st s acc st1 acc1) :
-    ∃ u, s = u ++ post ∧ lexAll st (u ++ b :: post) acc = lexAll (st1.shift 1) post acc1 := by
+/-- **the prefix half, for any insertion that begins with a separator**: `b :: tail` is inserted in front of `post`, where
+    `b` is a blank, `#`, a line feed or a carriage return.  If the old run reaches the insertion point in state `st1`, and
+    lexing `b :: tail` from `st1` continues as lexing `post` from some state `T` (`hins`) — also when a comment of the old
+    text runs up to the insertion point and swallows the rest of the inserted line (`hline`) — then the run on the new text
+    delivers the same tokens up to there and continues on `post` from `T` -/
+theorem reach_with_insert (b : Char) (hb : isSepC b) (tail : List Char) (T : LexSt) {post : List Char}
+    {st s acc st1 acc1} (h : LexReach post st s acc st1 acc1)
+    (hins : ∀ acc0, lexAll st1 (b :: tail) acc0 = lexAll T post acc0)
+    (hline : b ≠ '\n' → (post = [] ∨ ∃ t, post = '\n' :: t) → ∀ acc0,
+      lexAll (st1.shift (1 + (tail.length - (dropLine tail).length))) (dropLine tail) acc0 = lexAll T post acc0) :
+    ∃ u, s = u ++ post ∧ lexAll st (u ++ b :: tail) acc = lexAll T post acc1 := by
   induction h with
   | here st0 acc0 =>
     refine ⟨[], rfl, ?_⟩
-    rw [List.nil_append, lexAll_step, lexStep_blank st0 b hb post]
+    rw [List.nil_append]
+    exact hins acc0
   | @tok st0 s0 t st' r acc0 st2 acc2 hs hrest ih =>
-    obtain ⟨u', er, ihq⟩ := ih
-    obtain ⟨u, es, hz⟩ := lexStep_cont_tok st0 s0 b hb post hs
-    have hcont : Cont b post r (u' ++ b :: post) := by rw [er]; exact Cont.append u'
-    have hside : (u' ++ b :: post) = b :: r ∨ ∀ e, lexStep st' r ≠ .err e := by
+    obtain ⟨u', er, ihq⟩ := ih hins hline
+    obtain ⟨u, es, hz⟩ := lexStep_cont_tok (tail := tail) st0 s0 b hb post hs
+    have hcont : Cont b tail post r (u' ++ b :: tail) := by rw [er]; exact Cont.append u'
+    have hside : (∃ t, (u' ++ b :: tail) = b :: t) ∨ ∀ e, lexStep st' r ≠ .err e := by
       rcases reach_next hrest with h1 | h1
       · left
         have : u' = [] := append_self_nil (h1.symm.trans er)
-        rw [this, List.nil_append, h1]
+        rw [this, List.nil_append]
+        exact ⟨tail, rfl⟩
       · exact Or.inr h1
     refine ⟨u ++ u', by rw [es, er]; simp, ?_⟩
     rw [List.append_assoc, lexAll_step, hz _ hcont hside]
     exact ihq
   | @skip st0 s0 st' r acc0 st2 acc2 hs hrest ih =>
-    obtain ⟨u', er, ihq⟩ := ih
-    obtain ⟨u, es, hz⟩ := lexStep_cont_skip st0 s0 b hb post hs
-    have hcont : Cont b post r (u' ++ b :: post) := by rw [er]; exact Cont.append u'
+    obtain ⟨u', er, ihq⟩ := ih hins hline
+    obtain ⟨u, es, hz⟩ := lexStep_cont_skip (tail := tail) st0 s0 b hb post hs
+    have hcont : Cont b tail post r (u' ++ b :: tail) := by rw [er]; exact Cont.append u'
     refine ⟨u ++ u', by rw [es, er]; simp, ?_⟩
     rw [List.append_assoc, lexAll_step]
-    rcases hz _ hcont with h1 | ⟨hzeq, hshape, h1⟩
+    rcases hz _ hcont with h1 | ⟨hbn, hrp, hzeq, hshape, h1⟩
     · rw [h1]; exact ihq
-    · -- the comment swallowed the blank: the reached point is the insertion point itself
+    · -- a comment of the old text ran up to the insertion point: it swallows the insertion up to the end of its line
       rw [h1]
-      obtain ⟨_, _, _, hbnl, _, _⟩ := blank_ne b hb
-      have hu' : u' = [] := by
-        cases u' with
-        | nil => rfl
-        | cons x xs =>
-          exfalso
-          -- z = b :: r forces the first character of r to be the blank; a comment's rest is empty or starts with a line feed
-          have h2 : (x :: xs) ++ b :: post = b :: r := hzeq
-          simp only [List.cons_append, List.cons.injEq] at h2
-          obtain ⟨rfl, _⟩ := h2
-          rcases hshape with h0 | ⟨t, ht⟩
-          · rw [h0] at er; cases er
-          · rw [ht] at er
-            simp only [List.cons_append, List.cons.injEq] at er
-            exact hbnl er.1.symm
-      subst hu'
-      simp only [List.nil_append] at er
-      subst er
+      subst hrp
       obtain ⟨rfl, rfl⟩ := reach_self hrest
-      rfl
+      exact hline hbn hshape _
+
+/-- the blank: one character skipped -/
+theorem reach_with_blank (b : Char) (hb : isBlank b) {post : List Char} {st s acc st1 acc1}
+    (h : LexReach post st s acc st1 acc1) :
+    ∃ u, s = u ++ post ∧ lexAll st (u ++ b :: post) acc = lexAll (st1.shift 1) post acc1 := by
+  refine reach_with_insert b (isSepC_of_blank hb) post (st1.shift 1) h ?_ ?_
+  · intro acc0
+    rw [lexAll_step, lexStep_blank st1 b hb post]
+  · intro _ hshape acc0
+    rw [dropLine_fix post hshape]
+    simp
 
 theorem lexAll_acc (st : LexSt) (s : List Char) (acc : List Token) : lexAll st s acc = preOut acc (lexAll st s []) :=
   lexAllAux_acc _ st s acc
@@ -311,13 +314,12 @@ theorem parseText_ok_iff (st : LexSt) (src : List Char) (tree : Op) :
       simp only [hp]
 
 open Proto in
-/-- **an extra space or tab between tokens never changes the parsed program**: if lexing `s` passes through the point where
-    `post` remains, then `s = u ++ post`, and the text with a blank inserted there parses to a tree iff `s` does — the same tree -/
-theorem extra_blank_same_program (b : Char) (hb : isBlank b) {post s : List Char} {st1 : LexSt} {acc1 : List Token}
-    (h : LexReach post LexSt.init s [] st1 acc1) (tree : Op) :
-    ∃ u, s = u ++ post ∧ (parseText LexSt.init (u ++ b :: post) = .ok tree ↔ parseText LexSt.init s = .ok tree) := by
-  obtain ⟨u, es, hold, hnew⟩ := lex_extra_blank b hb h
-  refine ⟨u, es, ?_⟩
+/-- two texts whose tokens agree up to a point and differ by a constant offset afterwards parse alike -/
+theorem same_program_of_shift (d : Nat) {s s2 post : List Char} {st1 : LexSt} {acc1 : List Token}
+    (h : LexReach post LexSt.init s [] st1 acc1)
+    (hold : lexFrom LexSt.init s = preOut acc1 (lexAll st1 post []))
+    (hnew : lexFrom LexSt.init s2 = preOut acc1 (shiftOut d (lexAll st1 post []))) (tree : Op) :
+    parseText LexSt.init s2 = .ok tree ↔ parseText LexSt.init s = .ok tree := by
   rw [parseText_ok_iff, parseText_ok_iff, hold, hnew]
   have hlt := reach_pos_lt h (fun t ht => by cases ht)
   have hge : ∀ t ∈ tokensOf (lexAll st1 post []), st1.pos ≤ t.pos :=
@@ -331,38 +333,38 @@ theorem extra_blank_same_program (b : Char) (hb : isBlank b) {post s : List Char
     rw [hx] at hge
     simp only [tokensOf] at hge
     simp only [preOut, shiftOut, Except.ok.injEq, Prod.mk.injEq]
-    let f : Token → Token := fun t => if st1.pos ≤ t.pos then t.shift 1 else t
-    let g : Token → Token := fun t => if st1.pos < t.pos then { t with pos := t.pos - 1 } else t
-    have hmap : (acc1.reverse ++ ts2).map f = acc1.reverse ++ ts2.map (Token.shift 1) := by
+    let f : Token → Token := fun t => if st1.pos ≤ t.pos then t.shift d else t
+    let g : Token → Token := fun t => if st1.pos + d ≤ t.pos then { t with pos := t.pos - d } else t
+    have hmap : (acc1.reverse ++ ts2).map f = acc1.reverse ++ ts2.map (Token.shift d) := by
       rw [List.map_append]
       congr 1
       · have hid : ∀ t ∈ acc1.reverse, f t = id t := by
           intro t ht
           have := hlt t (List.mem_reverse.mp ht)
-          show (if st1.pos ≤ t.pos then t.shift 1 else t) = t
+          show (if st1.pos ≤ t.pos then t.shift d else t) = t
           rw [if_neg (by omega)]
         rw [List.map_congr_left hid, List.map_id]
       · apply List.map_congr_left
         intro t ht
-        show (if st1.pos ≤ t.pos then t.shift 1 else t) = t.shift 1
+        show (if st1.pos ≤ t.pos then t.shift d else t) = t.shift d
         rw [if_pos (hge t ht)]
     have key := parse_ok_iff_of_map f g
-      (fun t => by show (if st1.pos ≤ t.pos then t.shift 1 else t).ty = t.ty; split <;> rfl)
-      (fun t => by show (if st1.pos ≤ t.pos then t.shift 1 else t).val = t.val; split <;> rfl)
-      (fun t => by show (if st1.pos < t.pos then ({ t with pos := t.pos - 1 } : Token) else t).ty = t.ty; split <;> rfl)
-      (fun t => by show (if st1.pos < t.pos then ({ t with pos := t.pos - 1 } : Token) else t).val = t.val; split <;> rfl)
+      (fun t => by show (if st1.pos ≤ t.pos then t.shift d else t).ty = t.ty; split <;> rfl)
+      (fun t => by show (if st1.pos ≤ t.pos then t.shift d else t).val = t.val; split <;> rfl)
+      (fun t => by show (if st1.pos + d ≤ t.pos then ({ t with pos := t.pos - d } : Token) else t).ty = t.ty; split <;> rfl)
+      (fun t => by show (if st1.pos + d ≤ t.pos then ({ t with pos := t.pos - d } : Token) else t).val = t.val; split <;> rfl)
       (fun t => by
         show g (f t) = t
         by_cases hp : st1.pos ≤ t.pos
-        · have e1 : f t = t.shift 1 := if_pos hp
+        · have e1 : f t = t.shift d := if_pos hp
           rw [e1]
-          show (if st1.pos < (t.shift 1).pos then ({ (t.shift 1) with pos := (t.shift 1).pos - 1 } : Token) else t.shift 1) = t
-          have : st1.pos < (t.shift 1).pos := by simp [Token.shift]; omega
+          show (if st1.pos + d ≤ (t.shift d).pos then ({ (t.shift d) with pos := (t.shift d).pos - d } : Token) else t.shift d) = t
+          have : st1.pos + d ≤ (t.shift d).pos := by simp [Token.shift]; omega
           rw [if_pos this]
           cases t; simp [Token.shift]
         · have e1 : f t = t := if_neg hp
           rw [e1]
-          show (if st1.pos < t.pos then ({ t with pos := t.pos - 1 } : Token) else t) = t
+          show (if st1.pos + d ≤ t.pos then ({ t with pos := t.pos - d } : Token) else t) = t
           rw [if_neg (by omega)])
       (acc1.reverse ++ ts2) tree
     rw [hmap] at key
@@ -371,5 +373,184 @@ theorem extra_blank_same_program (b : Char) (hb : isBlank b) {post s : List Char
       exact ⟨_, _, ⟨rfl, rfl⟩, key.mp hp⟩
     · rintro ⟨ts, st2, ⟨rfl, _⟩, hp⟩
       exact ⟨_, _, ⟨rfl, rfl⟩, key.mpr hp⟩
+
+open Proto in
+/-- **an extra space or tab between tokens never changes the parsed program**: if lexing `s` passes through the point where
+    `post` remains, then `s = u ++ post`, and the text with a blank inserted there parses to a tree iff `s` does — the same tree -/
+theorem extra_blank_same_program (b : Char) (hb : isBlank b) {post s : List Char} {st1 : LexSt} {acc1 : List Token}
+    (h : LexReach post LexSt.init s [] st1 acc1) (tree : Op) :
+    ∃ u, s = u ++ post ∧ (parseText LexSt.init (u ++ b :: post) = .ok tree ↔ parseText LexSt.init s = .ok tree) := by
+  obtain ⟨u, es, hold, hnew⟩ := lex_extra_blank b hb h
+  exact ⟨u, es, same_program_of_shift 1 h hold hnew tree⟩
+
+/-! ### a comment in front of a line end -/
+
+/-- a comment — `#`, then characters without a line feed — in front of the end of the text or of a line feed is skipped in
+    one step -/
+theorem lexStep_comment (st0 : LexSt) (cs post : List Char) (hcs : nl cs = 0) (hp : post = [] ∨ ∃ t, post = '\n' :: t) :
+    lexStep st0 ('#' :: (cs ++ post)) = .skip (st0.shift (1 + cs.length)) post := by
+  rw [lexStep_hash, dropLine_append cs post hcs, dropLine_fix post hp]
+  congr 1
+  simp only [LexSt.shift, List.length_append]
+  congr 1
+  omega
+
+/-- **a comment inserted between tokens at the end of a line never changes the tokens**: if lexing `s` passes through the
+    point where `post` remains and `post` is empty or starts with a line feed, then `s = u ++ post`, and lexing
+    `u ++ '#' :: cs ++ post` (any comment text `cs` without a line feed) delivers the same tokens before and the same tokens
+    after — kinds, values, line numbers; offsets `1 + cs.length` further — and the same lexical error if any -/
+theorem lex_extra_comment (cs : List Char) (hcs : nl cs = 0) {post s : List Char} (hp : post = [] ∨ ∃ t, post = '\n' :: t)
+    {st1 : LexSt} {acc1 : List Token} (h : LexReach post LexSt.init s [] st1 acc1) :
+    ∃ u, s = u ++ post ∧
+      lexFrom LexSt.init s = preOut acc1 (lexAll st1 post []) ∧
+      lexFrom LexSt.init (u ++ '#' :: (cs ++ post)) = preOut acc1 (shiftOut (1 + cs.length) (lexAll st1 post [])) := by
+  obtain ⟨u, es, hnew⟩ := reach_with_insert '#' (Or.inr (Or.inr (Or.inl rfl))) (cs ++ post) (st1.shift (1 + cs.length)) h
+    (fun acc0 => by rw [lexAll_step, lexStep_comment st1 cs post hcs hp])
+    (fun _ _ acc0 => by
+      rw [dropLine_append cs post hcs, dropLine_fix post hp]
+      have : 1 + ((cs ++ post).length - post.length) = 1 + cs.length := by simp only [List.length_append]; omega
+      rw [this])
+  refine ⟨u, es, ?_, ?_⟩
+  · rw [lexFrom_eq, reach_lexAll h, lexAll_acc]
+  · rw [lexFrom_eq, hnew, lexAll_acc, lexAll_shift]
+
+open Proto in
+/-- **… and never changes the parsed program** -/
+theorem extra_comment_same_program (cs : List Char) (hcs : nl cs = 0) {post s : List Char}
+    (hp : post = [] ∨ ∃ t, post = '\n' :: t) {st1 : LexSt} {acc1 : List Token}
+    (h : LexReach post LexSt.init s [] st1 acc1) (tree : Op) :
+    ∃ u, s = u ++ post ∧
+      (parseText LexSt.init (u ++ '#' :: (cs ++ post)) = .ok tree ↔ parseText LexSt.init s = .ok tree) := by
+  obtain ⟨u, es, hold, hnew⟩ := lex_extra_comment cs hcs hp h
+  exact ⟨u, es, same_program_of_shift (1 + cs.length) h hold hnew tree⟩
+
+/-! ### a line break inside brackets -/
+
+theorem lexAll_lshift (d : Nat) (st : LexSt) (s : List Char) : lexAll (st.lshift d) s [] = lshiftOut d (lexAll st s []) :=
+  lexAllAux_lshift d _ st s
+
+/-- a line feed inside brackets is skipped: one offset and one line further -/
+theorem lexStep_lf_in_brackets (st0 : LexSt) (hd : st0.depth ≠ 0) (post : List Char) :
+    lexStep st0 ('\n' :: post) = .skip ((st0.shift 1).lshift 1) post := by
+  simp [lexStep, hd, LexSt.shift, LexSt.lshift]
+
+/-- … and so is carriage return + line feed: two offsets and one line further -/
+theorem lexStep_crlf_in_brackets (st0 : LexSt) (hd : st0.depth ≠ 0) (post : List Char) :
+    lexStep st0 ('\r' :: '\n' :: post) = .skip ((st0.shift 2).lshift 1) post := by
+  simp [lexStep, hd, LexSt.shift, LexSt.lshift]
+
+/-- **a line break inserted between tokens inside brackets never changes the tokens**: if lexing `s` passes through the
+    point where `post` remains with the lexer inside brackets (`st1.depth ≠ 0`), then `s = u ++ post`, and lexing
+    `u ++ '\n' :: post` delivers the same tokens before, and after it the same tokens one offset and one LINE further -/
+theorem lex_extra_linefeed {post s : List Char} {st1 : LexSt} {acc1 : List Token}
+    (h : LexReach post LexSt.init s [] st1 acc1) (hd : st1.depth ≠ 0) :
+    ∃ u, s = u ++ post ∧
+      lexFrom LexSt.init s = preOut acc1 (lexAll st1 post []) ∧
+      lexFrom LexSt.init (u ++ '\n' :: post) = preOut acc1 (lshiftOut 1 (shiftOut 1 (lexAll st1 post []))) := by
+  obtain ⟨u, es, hnew⟩ := reach_with_insert '\n' (Or.inr (Or.inr (Or.inr (Or.inl rfl)))) post ((st1.shift 1).lshift 1) h
+    (fun acc0 => by rw [lexAll_step, lexStep_lf_in_brackets st1 hd post])
+    (fun hne => absurd rfl hne)
+  refine ⟨u, es, ?_, ?_⟩
+  · rw [lexFrom_eq, reach_lexAll h, lexAll_acc]
+  · rw [lexFrom_eq, hnew, lexAll_acc, lexAll_lshift, lexAll_shift]
+
+/-- the same for carriage return + line feed -/
+theorem lex_extra_crlf {post s : List Char} {st1 : LexSt} {acc1 : List Token}
+    (h : LexReach post LexSt.init s [] st1 acc1) (hd : st1.depth ≠ 0) :
+    ∃ u, s = u ++ post ∧
+      lexFrom LexSt.init s = preOut acc1 (lexAll st1 post []) ∧
+      lexFrom LexSt.init (u ++ '\r' :: '\n' :: post) = preOut acc1 (lshiftOut 1 (shiftOut 2 (lexAll st1 post []))) := by
+  obtain ⟨u, es, hnew⟩ := reach_with_insert '\r' (Or.inr (Or.inr (Or.inr (Or.inr rfl)))) ('\n' :: post)
+    ((st1.shift 2).lshift 1) h
+    (fun acc0 => by rw [lexAll_step, lexStep_crlf_in_brackets st1 hd post])
+    (fun _ _ acc0 => by
+      -- a comment of the old text swallowed the carriage return: the line feed is skipped next
+      have e : dropLine ('\n' :: post) = '\n' :: post := by simp [dropLine]
+      rw [e]
+      have : 1 + (('\n' :: post).length - ('\n' :: post).length) = 1 := by omega
+      rw [this, lexAll_step, lexStep_lf_in_brackets (st1.shift 1) hd post]
+      rfl)
+  refine ⟨u, es, ?_, ?_⟩
+  · rw [lexFrom_eq, reach_lexAll h, lexAll_acc]
+  · rw [lexFrom_eq, hnew, lexAll_acc, lexAll_lshift, lexAll_shift]
+
+open Proto in
+/-- two texts whose tokens agree up to a point and differ by a constant offset AND a constant number of lines afterwards
+    parse alike -/
+theorem same_program_of_shift2 (dp dl : Nat) {s s2 post : List Char} {st1 : LexSt} {acc1 : List Token}
+    (h : LexReach post LexSt.init s [] st1 acc1)
+    (hold : lexFrom LexSt.init s = preOut acc1 (lexAll st1 post []))
+    (hnew : lexFrom LexSt.init s2 = preOut acc1 (lshiftOut dl (shiftOut dp (lexAll st1 post [])))) (tree : Op) :
+    parseText LexSt.init s2 = .ok tree ↔ parseText LexSt.init s = .ok tree := by
+  rw [parseText_ok_iff, parseText_ok_iff, hold, hnew]
+  have hlt := reach_pos_lt h (fun t ht => by cases ht)
+  have hge : ∀ t ∈ tokensOf (lexAll st1 post []), st1.pos ≤ t.pos :=
+    lexAllAux_pos_ge _ st1 post [] st1.pos (Nat.le_refl _) (fun t ht => by cases ht)
+  cases hx : lexAll st1 post [] with
+  | error p =>
+    obtain ⟨e, ts⟩ := p
+    simp [preOut, shiftOut, lshiftOut]
+  | ok p =>
+    obtain ⟨ts2, stf⟩ := p
+    rw [hx] at hge
+    simp only [tokensOf] at hge
+    simp only [preOut, shiftOut, lshiftOut, Except.ok.injEq, Prod.mk.injEq]
+    let f : Token → Token := fun t => if st1.pos ≤ t.pos then (t.shift dp).lshift dl else t
+    let g : Token → Token := fun t => if st1.pos + dp ≤ t.pos then { t with pos := t.pos - dp, line := t.line - dl } else t
+    have hmap : (acc1.reverse ++ ts2).map f = acc1.reverse ++ (ts2.map (Token.shift dp)).map (Token.lshift dl) := by
+      rw [List.map_append]
+      congr 1
+      · have hid : ∀ t ∈ acc1.reverse, f t = id t := by
+          intro t ht
+          have := hlt t (List.mem_reverse.mp ht)
+          show (if st1.pos ≤ t.pos then (t.shift dp).lshift dl else t) = t
+          rw [if_neg (by omega)]
+        rw [List.map_congr_left hid, List.map_id]
+      · rw [List.map_map]
+        apply List.map_congr_left
+        intro t ht
+        show (if st1.pos ≤ t.pos then (t.shift dp).lshift dl else t) = _
+        rw [if_pos (hge t ht)]
+        rfl
+    have key := parse_ok_iff_of_map f g
+      (fun t => by show (if st1.pos ≤ t.pos then (t.shift dp).lshift dl else t).ty = t.ty; split <;> rfl)
+      (fun t => by show (if st1.pos ≤ t.pos then (t.shift dp).lshift dl else t).val = t.val; split <;> rfl)
+      (fun t => by show (if st1.pos + dp ≤ t.pos then ({ t with pos := t.pos - dp, line := t.line - dl } : Token) else t).ty = t.ty; split <;> rfl)
+      (fun t => by show (if st1.pos + dp ≤ t.pos then ({ t with pos := t.pos - dp, line := t.line - dl } : Token) else t).val = t.val; split <;> rfl)
+      (fun t => by
+        show g (f t) = t
+        by_cases hp : st1.pos ≤ t.pos
+        · have e1 : f t = (t.shift dp).lshift dl := if_pos hp
+          rw [e1]
+          show (if st1.pos + dp ≤ ((t.shift dp).lshift dl).pos then
+            ({ ((t.shift dp).lshift dl) with pos := ((t.shift dp).lshift dl).pos - dp, line := ((t.shift dp).lshift dl).line - dl } : Token)
+            else (t.shift dp).lshift dl) = t
+          have : st1.pos + dp ≤ ((t.shift dp).lshift dl).pos := by simp [Token.shift, Token.lshift]; omega
+          rw [if_pos this]
+          cases t; simp [Token.shift, Token.lshift]
+        · have e1 : f t = t := if_neg hp
+          rw [e1]
+          show (if st1.pos + dp ≤ t.pos then ({ t with pos := t.pos - dp, line := t.line - dl } : Token) else t) = t
+          rw [if_neg (by omega)])
+      (acc1.reverse ++ ts2) tree
+    rw [hmap] at key
+    constructor
+    · rintro ⟨ts, st2, ⟨rfl, _⟩, hp⟩
+      exact ⟨_, _, ⟨rfl, rfl⟩, key.mp hp⟩
+    · rintro ⟨ts, st2, ⟨rfl, _⟩, hp⟩
+      exact ⟨_, _, ⟨rfl, rfl⟩, key.mpr hp⟩
+
+open Proto in
+/-- **a line break inside brackets never changes the parsed program** (`\n` and `\r\n`) -/
+theorem extra_linebreak_same_program {post s : List Char} {st1 : LexSt} {acc1 : List Token}
+    (h : LexReach post LexSt.init s [] st1 acc1) (hd : st1.depth ≠ 0) (tree : Op) :
+    ∃ u, s = u ++ post ∧
+      (parseText LexSt.init (u ++ '\n' :: post) = .ok tree ↔ parseText LexSt.init s = .ok tree) ∧
+      (parseText LexSt.init (u ++ '\r' :: '\n' :: post) = .ok tree ↔ parseText LexSt.init s = .ok tree) := by
+  obtain ⟨u, es, hold, hnew⟩ := lex_extra_linefeed h hd
+  obtain ⟨u2, es2, _, hnew2⟩ := lex_extra_crlf h hd
+  have : u2 = u := List.append_cancel_right (es2.symm.trans es)
+  subst this
+  exact ⟨u2, es, same_program_of_shift2 1 1 h hold hnew tree, same_program_of_shift2 2 1 h hold hnew2 tree⟩
 
 end Sq
